@@ -74,10 +74,10 @@ theorem core3_roundtrip (useHex : Int → Bool) (f : Core3.Func) (h : Core3.wf f
     2: store i32 %1, i32* null, align 4 / ret i32 %1 }` is well-formed -/
 def core3Sample : Core3.Func :=
   ⟨.int 32, [102], [(.int 32, .name [120]), (.int 32, .id 0)],
-   [⟨.name [101], [⟨some (.id 1), 0, [.tyval (.int 32) (.loc (.name [120])), .val (.const (.int 7))]⟩,
+   [⟨.name [101], [⟨some (.id 1), 0, [.flags [0, 1], .tyval (.int 32) (.loc (.name [120])), .val (.const (.int 7))]⟩,
                   ⟨some (.name [99]), 13, [.tyval (.int 32) (.loc (.id 1)), .val (.loc (.id 0))]⟩],
       ⟨none, 28, [.val (.loc (.name [99])), .lab (.id 2), .lab (.id 2)]⟩⟩,
-    ⟨.id 2, [⟨none, 24, [.tyval (.int 32) (.loc (.id 1)), .tyval (.ptr (.int 32) 0) (.const .null), .align (some 4)]⟩],
+    ⟨.id 2, [⟨none, 24, [.flags [], .tyval (.int 32) (.loc (.id 1)), .tyval (.ptr (.int 32) 0) (.const .null), .align (some 4)]⟩],
       ⟨none, 26, [.retv (some (.int 32, .loc (.id 1)))]⟩⟩]⟩
 
 example : Core3.wf core3Sample = true := by decide +kernel
